@@ -176,6 +176,18 @@ theorem C01_compiled_executor_refines_dataflow {Val : Type} (winsOf : Wins) (ste
     (exec winsOf step (initX B) Tr).env = Rex.Dataflow.run (dfGraph winsOf step) Tr.flatten (fun _ => none) :=
   exec_refines_dataflow winsOf step B Tr hok hnd hpos hsame hkinds hseq
 
+/-- the same statement with the hypothesis C08 uses ("every node writes the consecutive sequence numbers 0, 1, 2, …") in
+place of "steps in sequence order": the latter follows (`hseq_of_consec`) -/
+theorem C01_compiled_executor_refines_dataflow' {Val : Type} (winsOf : Wins) (step : Step Val) (B : List Nat) (Tr : List (List Vtx))
+    (hok : traceOk true (B.map Ring.init) (Tr.map (genOfV winsOf)) = true)
+    (hnd : Tr.flatten.Nodup)
+    (hpos : ∀ v ∈ Tr.flatten, 0 ≤ v.seq)
+    (hsame : ∀ vs ∈ Tr, ∀ v ∈ vs, ∀ d ∈ depsOfV winsOf v, d ∉ vs)
+    (hkinds : ∀ vs ∈ Tr, ∀ v ∈ vs, ∀ w ∈ vs, w.kind = v.kind → w = v)
+    (hcons : ∀ κ, ∃ n, wseqs κ (allWrites (Tr.map (genOfV winsOf))) = consec 0 n) :
+    (exec winsOf step (initX B) Tr).env = Rex.Dataflow.run (dfGraph winsOf step) Tr.flatten (fun _ => none) :=
+  exec_refines_dataflow winsOf step B Tr hok hnd hpos hsame hkinds (hseq_of_consec winsOf Tr hcons hnd hkinds)
+
 /-- the same on a compiled instance: `execHypOk` decides the structural hypotheses and `sizedOk` the replay hypotheses;
 what both accept is evaluated by the executor exactly as the dataflow graph prescribes, for every step function. The
 driver runs both on the real timings (`sched.exec`) together with the executor itself on the harness's probe nodes, whose
